@@ -37,6 +37,32 @@ def run(ctx, chk):
     r2(ctx, chk)
     r3(ctx, chk)
     r4(ctx, chk)
+    r5(ctx, chk, "C08.R5")
+
+
+def r5(ctx, chk, rule):
+    """the out-of-range-day recovery of _get_datetime_obj: the day is clamped only when the string states no day;
+    the year is moved to a leap year only when the day was stated and the year was not"""
+    effs = P.recovery_effects(ctx)
+    chk.floor(rule, len(effs), 2, "repairs of params[...] in the day-out-of-range recovery")
+    for part, g, node, fn in effs:
+        if part == "day":
+            w = G.satisfiable(G.conj(g, ("or", ("atom", "tok_day"), ("atom", "tok_weekday"))), P.ATOMS, P.constraint)
+            chk.ob(rule, "_get_datetime_obj: the day is replaced by the month's last day only when the string states no day", w is None,
+                   "the clamp is enabled although a day is stated (%s): a stated day that does not fit the borrowed month is "
+                   "silently replaced instead of failing" % ({k: v for k, v in (w or {}).items() if v and not isinstance(k, tuple)}),
+                   key={"function": fn.key, "construct": "clamp only without a day token"}, file=fn.file, function=fn.qual, line=node.lineno,
+                   text=ast.unparse(node)[:100])
+        elif part == "year":
+            w = G.satisfiable(G.conj(g, ("atom", "tok_year")), P.ATOMS, P.constraint)
+            chk.ob(rule, "_get_datetime_obj: the year is moved to a leap year only when the string states no year", w is None,
+                   "enabled with a year token", key={"function": fn.key, "construct": "leap move only without a year token"},
+                   file=fn.file, function=fn.qual, line=node.lineno)
+            w = G.satisfiable(G.conj(g, G.neg(("atom", "tok_day")), G.neg(("atom", "tok_weekday"))), P.ATOMS, P.constraint)
+            chk.ob(rule, "_get_datetime_obj: the year is moved to a leap year only for a stated 29 February (a borrowed day is clamped instead)",
+                   w is None, "enabled although no day is stated (%s): a month name alone seen from a 29th leaves the reference year" % (
+                       {k: v for k, v in (w or {}).items() if v and not isinstance(k, tuple)}),
+                   key={"function": fn.key, "construct": "leap move only with a day token"}, file=fn.file, function=fn.qual, line=node.lineno)
 
 
 def _options(fn):
